@@ -60,6 +60,11 @@ pub fn tls_pool_token(o: &huginn_net_tls::output::TlsClientOutput) -> String {
     )
 }
 
+/// per-packet TLS token of the sequential kinds (EC07 L, EC20 K): endpoints | EC08 packet-level line
+pub fn tls_seq_token(o: &huginn_net_tls::output::TlsClientOutput) -> String {
+    format!("{}:{}>{}:{}|{}", ip_hex(&o.source.ip), o.source.port, ip_hex(&o.destination.ip), o.destination.port, client_token(&o.sig))
+}
+
 pub fn run_tls(cap: usize, evs: &[Ev]) -> String {
     use huginn_net_tls::packet_parser::{parse_packet, IpPacket};
     let mut fl: TtlCache<huginn_net_tls::FlowKey, huginn_net_tls::tls_client_hello_reader::TlsClientHelloReader> = TtlCache::new(cap);
@@ -73,14 +78,14 @@ pub fn run_tls(cap: usize, evs: &[Ev]) -> String {
         out.push(match r {
             Err(_) => "ERR".to_string(),
             Ok(None) => "-".to_string(),
-            Ok(Some(o)) => format!("{}:{}>{}:{}|{}", ip_hex(&o.source.ip), o.source.port, ip_hex(&o.destination.ip), o.destination.port, client_token(&o.sig)),
+            Ok(Some(o)) => tls_seq_token(&o),
         });
     }
     out.join(";")
 }
 
 // ---- TCP: EC03 result line + EC19 uptime token ----
-fn up(u: &huginn_net_tcp::UptimeOutput) -> String {
+pub fn up(u: &huginn_net_tcp::UptimeOutput) -> String {
     format!("{} {} {} {} {} {}", u.role, u.freq.round() as u64, u.days, u.hours, u.min, u.up_mod_days)
 }
 pub fn run_tcp(db: &Database, cap: usize, evs: &[Ev]) -> String {
